@@ -135,6 +135,79 @@ def neutralise_limits(plan):
     return re.sub(r"\(topn \d+ \d+ ", "(topn null 0 ", plan)
 
 
+def parse_sexp(text):
+    """'(a (b c) d)' -> ['a', ['b', 'c'], 'd'] (atoms are strings; quoted strings stay one atom)"""
+    toks = re.findall(r"\(|\)|'[^']*'|[^\s()]+", text)
+    pos = 0
+
+    def rd():
+        nonlocal pos
+        t = toks[pos]
+        pos += 1
+        if t == "(":
+            out = []
+            while toks[pos] != ")":
+                out.append(rd())
+            pos += 1
+            return out
+        return t
+    return rd()
+
+
+def null_vs_false_rule_under_not(logical):
+    """Does the query contain, under a NOT, a conjunction that one of C01's two open NULL-vs-FALSE rules
+    rewrites?  `and-gt-lt-conflict`: (and (> x a) (< x b)), constants a >= b  =>  false (it is NULL for NULL x);
+    `eq-trans`: (and (= a b) (= b c)) => (and (= a b) (= a c)) (differs when b is NULL).  Returns the rule name."""
+    try:
+        tree = parse_sexp(logical)
+    except Exception:
+        return None
+
+    def num(a):
+        try:
+            return int(a)
+        except Exception:
+            return None
+
+    def conj(e):
+        if isinstance(e, list) and len(e) == 3 and e[0] == "and":
+            return conj(e[1]) + conj(e[2])
+        return [e]
+
+    def rule_in(e):
+        if not isinstance(e, list):
+            return None
+        if len(e) == 3 and e[0] == "and":
+            parts = [p for p in conj(e) if isinstance(p, list) and len(p) == 3]
+            for p in parts:
+                for q in parts:
+                    if p is q:
+                        continue
+                    if p[0] == ">" and q[0] == "<" and p[1] == q[1] and num(p[2]) is not None and num(q[2]) is not None and num(p[2]) >= num(q[2]):
+                        return "and-gt-lt-conflict"
+                    if p[0] == "=" and q[0] == "=" and (set(map(str, p[1:])) & set(map(str, q[1:]))) and p[1:] != q[1:] and p[1:] != q[1:][::-1]:
+                        return "eq-trans"
+        for x in e[1:]:
+            r = rule_in(x)
+            if r:
+                return r
+        return None
+
+    def walk(e, under_not):
+        if not isinstance(e, list):
+            return None
+        if under_not:
+            r = rule_in(e)
+            if r:
+                return r
+        for x in e[1:]:
+            r = walk(x, under_not or e[0] == "not")
+            if r:
+                return r
+        return None
+    return walk(tree, False)
+
+
 def sub_bag(a, b):
     ca, cb = Counter(a), Counter(b)
     return all(cb.get(k, 0) >= v for k, v in ca.items())
@@ -413,12 +486,18 @@ def decide(ck, c, ir, mr, stats, engine="memory"):
             explained = True
             stats["tags"][t] = stats["tags"].get(t, 0) + 1
             ck.report(t, what + " [" + t + "]", replay=rep)
-        if L1o != L1 and ("not-in" in shape or not explained):
+        toks = shape.split()
+        sub_not_in = "not-in" in toks                      # `x NOT IN (subquery)`, not the tvl `not-in-list`
+        sub_not_exists = "tvl" not in toks and any(t.split("/")[0] == "not-exists" for t in toks)
+        if L1o != L1 and (sub_not_in or not explained):
             # every physical operator behaves like its spec, but the plan means something else
             # than the query: binder / optimizer changed the semantics
             explained = True
-            mech = ("not-in-null-semantics" if "not-in" in shape else
-                    "not-exists-anti-join" if "not-exists" in shape else sc)
+            # C01's two open NULL-vs-FALSE expression rules give a wrong answer exactly under NOT
+            rule = null_vs_false_rule_under_not(c["logical"])
+            mech = ("not-in-null-semantics" if sub_not_in else
+                    "not-exists-anti-join" if sub_not_exists else
+                    "rule-%s-under-not" % rule if rule else sc)
             t = "plan-semantics:" + mech
             stats["tags"][t] = stats["tags"].get(t, 0) + 1
             ck.report(t, what + " [optimised plan read with the L1 spec already differs from the query]", replay=rep)
